@@ -1,78 +1,214 @@
 package fasthttp
 
 // C11 — no request observes state left over from an earlier request.
-// Request 2 is served after a request 1 that fills every part of RequestCtx
-// (symbolic header/cookie/body/query bytes) and a handler that dirties the
-// response and the user values; what handler 2 sees must be exactly request 2
-// and a fresh default response.
-func vhC11NoLeftovers() {
-	x := vBytes("x", 2)
-	for _, c := range x {
-		vAssume(c >= 'a' && c <= 'z') // token bytes: request 1 must parse
+//
+// Non-interference: request 2 is served (a) after an arbitrary request 1 and a
+// handler that dirties everything reachable from RequestCtx — on the same
+// connection or on an earlier connection of the same Server (pooled contexts,
+// readers, streams) — and (b) alone on a fresh Server. What handler 2 observes
+// and the response it produces must be identical in (a) and (b), and handler 2
+// must run in (a) whenever it runs in (b). No model of the expected values is
+// involved: the oracle is the code's own behaviour on the request alone.
+
+// c11Snapshot renders every observable of the request and the default
+// response as one string.
+func c11Snapshot(ctx *RequestCtx, readCookies bool) string {
+	q := &ctx.Request
+	p := &ctx.Response
+	s := "M=" + string(q.Header.Method()) + " U=" + string(q.RequestURI()) + " P=" + string(ctx.Path()) +
+		" H=" + string(q.Header.Host()) + " UA=" + string(q.Header.UserAgent()) + " CT=" + string(q.Header.ContentType()) +
+		" proto=" + string(q.Header.Protocol())
+	if readCookies {
+		s += " cookie-c=" + string(q.Header.Cookie("c"))
 	}
-	xs := string(x)
-	var r1 string
-	switch vChoose("first", 4) {
+	s += " hdrs["
+	for k, v := range q.Header.All() {
+		s += string(k) + ":" + string(v) + ";"
+	}
+	s += "] cookies["
+	for k, v := range q.Header.Cookies() {
+		s += string(k) + "=" + string(v) + ";"
+	}
+	s += "] body=" + string(ctx.PostBody()) + " q["
+	for k, v := range ctx.QueryArgs().All() {
+		s += string(k) + "=" + string(v) + "&"
+	}
+	s += "] post["
+	for k, v := range ctx.PostArgs().All() {
+		s += string(k) + "=" + string(v) + "&"
+	}
+	s += "]"
+	if ctx.UserValue("k") != nil {
+		s += " uservalue!"
+	}
+	ctx.VisitUserValuesAll(func(any, any) { s += " uservalue-visit!" })
+	s += " resp=" + string(p.Header.StatusMessage()) + "/" + string(p.Header.ContentType()) + " ["
+	for k, v := range p.Header.All() {
+		s += string(k) + ":" + string(v) + ";"
+	}
+	s += "] rbody=" + string(p.Body())
+	if p.StatusCode() != 200 {
+		s += " status!"
+	}
+	if p.Header.ConnectionClose() || q.Header.ConnectionClose() != (string(q.Header.Peek("Connection")) == "close") {
+		s += " close!"
+	}
+	return s
+}
+
+func c11Dirty(ctx *RequestCtx, xs string) {
+	ctx.SetUserValue("k", "v")
+	ctx.SetUserValueBytes([]byte("kb"), 1)
+	ctx.Request.Header.Cookie("c") // forces cookie collection
+	ctx.PostBody()                 // consume the body (also when it is streamed)
+	ctx.PostArgs()
+	ctx.QueryArgs().Set("dirty", xs)
+	ctx.Request.Header.Set("X-Handler-Set", xs)
+	ctx.Request.Header.SetCookie("h", xs)
+	ctx.Response.Header.Set("X-Leak", xs)
+	ctx.Response.Header.SetCookie(&Cookie{})
+	ctx.Response.Header.SetStatusMessage([]byte("Leak"))
+	ctx.SetStatusCode(500)
+	ctx.SetContentType("x/" + xs)
+	ctx.SetBodyString("leak" + xs)
+}
+
+// request 1: anything that fills or disturbs per-connection / pooled state.
+func c11First(kind int, xs string) (req string, endsConn bool) {
+	switch kind {
 	case 0:
-		r1 = "POST /one?q=" + xs + " HTTP/1.1\r\nHost: a\r\nX-Dirty: " + xs + "\r\nCookie: c=" + xs + "\r\nContent-Type: application/x-www-form-urlencoded\r\nContent-Length: 4\r\n\r\np=" + xs
+		return "POST /one?q=" + xs + " HTTP/1.1\r\nHost: a\r\nX-Dirty: " + xs + "\r\nCookie: c=" + xs + "; d=" + xs + "\r\nX-After-Cookie: " + xs + "\r\nContent-Type: application/x-www-form-urlencoded\r\nContent-Length: 4\r\n\r\np=" + xs, false
 	case 1:
-		r1 = "PUT /one HTTP/1.1\r\nHost: a\r\nTransfer-Encoding: chunked\r\nX-Dirty: " + xs + "\r\n\r\n2\r\n" + xs + "\r\n0\r\n\r\n"
+		return "PUT /one HTTP/1.1\r\nHost: a\r\nTransfer-Encoding: chunked\r\nX-Dirty: " + xs + "\r\n\r\n2\r\n" + xs + "\r\n0\r\n\r\n", false
 	case 2:
-		r1 = "GET /one?q=" + xs + " HTTP/1.1\r\nHost: a\r\nUser-Agent: " + xs + "\r\nCookie: c=" + xs + "\r\nX-Dirty: " + xs + "\r\n\r\n"
+		return "GET /one?q=" + xs + " HTTP/1.1\r\nHost: a\r\nUser-Agent: " + xs + "\r\nCookie: c=" + xs + "\r\nX-Dirty: " + xs + "\r\nX-Dirty2: " + xs + "\r\n\r\n", false
 	case 3:
-		r1 = "POST /one HTTP/1.1\r\nHost: a\r\nExpect: 100-continue\r\nContent-Length: 2\r\n\r\n" + xs
+		return "POST /one HTTP/1.1\r\nHost: a\r\nExpect: 100-continue\r\nContent-Length: 2\r\n\r\n" + xs, false
+	case 4:
+		// chunked upload that breaks off inside a chunk
+		return "POST /one HTTP/1.1\r\nHost: a\r\nTransfer-Encoding: chunked\r\n\r\n1f\r\n" + xs, true
+	case 5:
+		// malformed head
+		return "GET /one HTTP/1.1\r\nHost: a\r\nBroken Header\r\n\r\n", true
+	case 6:
+		return "GET /one HTTP/1.0\r\nHost: a\r\nConnection: keep-alive\r\nCookie: session=" + xs + "\r\n\r\n", false
 	}
-	r2 := "GET /two?y=1 HTTP/1.1\r\nHost: b\r\nConnection: close\r\n\r\n"
-	c := &vsSegConn{}
-	if vBool("oneSegment") {
-		c.segs = [][]byte{[]byte(r1 + r2)}
-	} else {
-		c.segs = [][]byte{[]byte(r1), []byte(r2)}
+	return "", true
+}
+
+const c11NumFirst = 7
+
+// request 2: varied shapes, each with two symbolic token bytes.
+func c11Second(kind int, ys string) string {
+	switch kind {
+	case 0:
+		return "GET /two?y=" + ys + " HTTP/1.1\r\nHost: b\r\nConnection: close\r\n\r\n"
+	case 1:
+		return "GET /two HTTP/1.1\r\nHost: b\r\nX-A: " + ys + "\r\nX-B: 2\r\nCookie: " + ys + "; z=1\r\nX-C: 3\r\nX-D: 4\r\nX-E: 5\r\nConnection: close\r\n\r\n"
+	case 2:
+		return "POST /two HTTP/1.1\r\nHost: b\r\nTransfer-Encoding: chunked\r\nConnection: close\r\n\r\n3\r\n" + ys + "!\r\n0\r\n\r\n"
+	case 3:
+		return "POST /two HTTP/1.1\r\nHost: b\r\nContent-Type: application/x-www-form-urlencoded\r\nContent-Length: 4\r\nConnection: close\r\n\r\nf=" + ys
 	}
-	s := &Server{NoDefaultDate: true, NoDefaultServerHeader: true}
-	s.ReduceMemoryUsage = vBool("reduceMemory")
-	s.StreamRequestBody = vBool("stream")
-	calls := 0
-	clean := false
-	s.Handler = func(ctx *RequestCtx) {
-		calls++
-		if calls == 1 {
-			ctx.SetUserValue("k", "v")
-			ctx.PostBody() // consume the body (also when it is streamed)
-			ctx.PostArgs()
-			ctx.QueryArgs()
-			ctx.Response.Header.Set("X-Leak", xs)
-			ctx.Response.Header.SetCookie(&Cookie{})
-			ctx.SetStatusCode(500)
-			ctx.SetContentType("x/" + xs)
-			ctx.SetBodyString("leak" + xs)
-			return
+	return ""
+}
+
+const c11NumSecond = 4
+
+func vhC11Differential() {
+	x := vBytes("x", 2)
+	y := vBytes("y", 2)
+	for i := range x {
+		vAssume(x[i] >= 'a' && x[i] <= 'z') // token bytes: the requests must parse
+		vAssume(y[i] >= 'a' && y[i] <= 'z')
+	}
+	xs, ys := string(x), string(y)
+	r1, endsConn := c11First(vChoose("first", c11NumFirst), xs)
+	r2 := c11Second(vChoose("second", c11NumSecond), ys)
+	reduceMemory := vBool("reduceMemory")
+	stream := vBool("stream")
+	readCookies := vBool("handler2ReadsCookieFirst")
+	expectMode := vChoose("expectCallback", 3) // 0 none, 1 ContinueHandler rejects, 2 ExpectHandler rejects
+	mk := func() *Server {
+		s := &Server{NoDefaultDate: true, NoDefaultServerHeader: true, ReduceMemoryUsage: reduceMemory, StreamRequestBody: stream}
+		switch expectMode {
+		case 1:
+			s.ContinueHandler = func(*RequestHeader) bool { return false }
+		case 2:
+			s.ExpectHandler = func(*RequestCtx) int { return StatusExpectationFailed }
 		}
-		q := &ctx.Request
-		p := &ctx.Response
-		clean = string(q.Header.Method()) == "GET" &&
-			string(q.RequestURI()) == "/two?y=1" &&
-			string(ctx.Path()) == "/two" &&
-			string(q.Header.Host()) == "b" &&
-			q.Header.Peek("X-Dirty") == nil &&
-			q.Header.Cookie("c") == nil &&
-			len(q.Header.UserAgent()) == 0 &&
-			len(q.Header.ContentType()) == 0 &&
-			len(q.Body()) == 0 &&
-			ctx.QueryArgs().Len() == 1 && string(ctx.QueryArgs().Peek("y")) == "1" &&
-			ctx.PostArgs().Len() == 0 &&
-			ctx.UserValue("k") == nil &&
-			p.StatusCode() == 200 &&
-			p.Header.Peek("X-Leak") == nil &&
-			p.Header.Len() == 1 && // the default Content-Type only
-			string(p.Header.ContentType()) == string(defaultContentType) &&
-			len(p.Body()) == 0
+		return s
+	}
+
+	// (b) request 2 alone on a fresh server
+	var snapB string
+	callsB := 0
+	sb := mk()
+	sb.Handler = func(ctx *RequestCtx) {
+		callsB++
+		snapB = c11Snapshot(ctx, readCookies)
 		ctx.SetBodyString("ok")
 	}
-	s.ServeConn(c)
-	vAssert("second-request-dispatched", calls == 2)
-	vAssert("second-request-sees-only-itself", calls != 2 || clean)
-	rs, ok := vsParseResponses(c.wrote)
-	n := len(rs)
-	vAssert("second-response-fresh", !ok || n == 0 || (rs[n-1].status == 200 && rs[n-1].close))
+	cb := &vsSegConn{segs: [][]byte{[]byte(r2)}}
+	sb.ServeConn(cb)
+
+	// (a) request 1 first
+	var snapA string
+	calls2 := 0
+	sa := mk()
+	sa.Handler = func(ctx *RequestCtx) {
+		if string(ctx.Path()) == "/one" {
+			c11Dirty(ctx, xs)
+			return
+		}
+		calls2++
+		snapA = c11Snapshot(ctx, readCookies)
+		ctx.SetBodyString("ok")
+	}
+	sameConn := !endsConn && vBool("sameConnection")
+	var ca *vsSegConn
+	if sameConn {
+		if vBool("oneSegment") {
+			ca = &vsSegConn{segs: [][]byte{[]byte(r1 + r2)}}
+		} else {
+			ca = &vsSegConn{segs: [][]byte{[]byte(r1), []byte(r2)}}
+		}
+		sa.ServeConn(ca)
+	} else {
+		sa.ServeConn(&vsSegConn{segs: [][]byte{[]byte(r1)}})
+		ca = &vsSegConn{segs: [][]byte{[]byte(r2)}}
+		sa.ServeConn(ca)
+	}
+	vNote("A: " + snapA)
+	vNote("B: " + snapB)
+	// a connection the server chose to close after request 1 does not carry
+	// request 2 at all; that is C02/C10's business, not a leftover
+	closedAfterFirst := sameConn && calls2 == 0 && c11ClosedAfterFirst(ca.wrote)
+	if !closedAfterFirst {
+		vAssert("second-request-dispatched-as-when-alone", calls2 == callsB)
+		vAssert("second-request-sees-only-itself", calls2 != 1 || callsB != 1 || snapA == snapB)
+		// the response to request 2 is the same bytes
+		ra, oka := vsParseResponses(ca.wrote)
+		rb, okb := vsParseResponses(cb.wrote)
+		same := oka && okb && len(ra) >= 1 && len(rb) == 1
+		if same {
+			la := ra[len(ra)-1]
+			same = la.status == rb[0].status && la.body == rb[0].body && la.close == rb[0].close
+		}
+		vAssert("second-response-same-as-when-alone", same)
+	}
+}
+
+// c11ClosedAfterFirst: the first final response on the wire says close.
+func c11ClosedAfterFirst(w []byte) bool {
+	rs, ok := vsParseResponses(w)
+	if !ok {
+		return false
+	}
+	for _, r := range rs {
+		if r.status >= 200 {
+			return r.close
+		}
+	}
+	return false
 }
